@@ -4337,13 +4337,17 @@ static Value eval_statement(ASTNode *stmt, Environment *env) {
 
         case AST_BLOCK: {
             Value result = create_void();
+            /* A block is a scope: names bound inside it end with it (SPECIFICATION 8.2). */
+            int block_symbol_base = env->symbol_count;
             for (int i = 0; i < stmt->as.block.count; i++) {
                 result = eval_statement(stmt->as.block.statements[i], env);
                 /* If statement returned a value, propagate it immediately */
                 if (result.is_return || result.is_break || result.is_continue) {
+                    if (env->symbol_count > block_symbol_base) env->symbol_count = block_symbol_base;
                     return result;
                 }
             }
+            if (env->symbol_count > block_symbol_base) env->symbol_count = block_symbol_base;
             return result;
         }
 
